@@ -49,6 +49,9 @@ FAULTS = {
     "undefined-symbol-loop-bound": [".for i_f := 0, undef_zz {", ".db 1", "}"],
     "undefined-symbol-position": ["*=undef_zz"],
     "undefined-symbol-macro-argument": [".macro m_flt5(p_ff) {", ".db p_ff", "}", "m_flt5(undef_zz)"],
+    "undefined-argument-named-like-another-parameter": [".macro m_flt6(p_fg, p_fh) {", ".db p_fg, p_fh", "}", "m_flt6(1, p_fg)"],
+    "undefined-argument-named-like-a-label-of-the-body": [".macro m_flt7(p_fi) {", "lb_loc_f:", ".dl p_fi", "}", "m_flt7(lb_loc_f)"],
+    "undefined-argument-named-like-a-constant-of-the-body": [".macro m_flt8(p_fj) {", "k_loc_f := 3", ".db p_fj", "}", "m_flt8(k_loc_f)"],
     "undefined-macro": ["m_undefined(1)"],
     "too-few-macro-arguments": [".macro m_flt(p_fa, p_fb) {", ".db p_fa, p_fb", "}", "m_flt(1)"],
     "too-few-macro-arguments-unused-parameter": [".macro m_flt2(p_fc, p_fd) {", ".db p_fc", "}", "m_flt2(1)"],
